@@ -1,0 +1,181 @@
+//go:build verif
+
+package modcache
+
+// Contracts for the verification machinery in /verif (comment-only file;
+// excluded from every build without the "verif" tag).
+
+// ---- C16: crash safety of the extracted module directory ----
+//
+// Ghost file-system state of ONE module version (the one being fetched):
+//   dirState: 0 absent, 1 incomplete (being extracted or removed), 2 complete
+//   partial:  the .partial marker file exists
+//   held:     this process holds the version lock file
+// A crash can happen between any two effects: the crash invariant CI must hold
+// after every effect and in every intermediate state an effect passes through
+// (the latter is folded into the effects' preconditions, see each contract).
+//@ ghost var dirState int
+//@ ghost var partial bool
+//@ ghost var held bool
+//@ spec func CI() bool { 0 <= dirState && dirState <= 2 && (dirState == 1 ==> partial) }
+
+// Effect contracts (A-ext) for the file-system calls of Fetch / downloadDir.
+
+// os.Stat(dir): (assumption: Stat fails only with "not exist" on cache paths)
+//@ func statDir
+//@   assumed A-ext effect: os.Stat on the extraction directory reports whether it exists
+//@   ensures os.IsNotExist(result1) <==> dirState == 0
+//@   ensures result1 == nil <==> dirState != 0
+//@   ensures result1 == nil ==> result0 != nil
+//@   ensures !isType(result1, *downloadDirPartialError)
+
+// os.Stat(partialPath)
+//@ func statPartial
+//@   assumed A-ext effect: os.Stat on the .partial marker reports whether it exists
+//@   ensures result1 == nil <==> partial
+//@   ensures result1 != nil ==> os.IsNotExist(result1)
+//@   ensures !isType(result1, *downloadDirPartialError)
+
+//@ func os.IsNotExist
+//@   assumed A-ext: pure classification of an error
+//@   pure
+//@   ensures err == nil ==> !result
+
+//@ func extractPathIsDir
+//@   assumed A-ext: the extraction path, when it exists, is a directory (nothing else creates it)
+//@   ensures result
+
+//@ func (*Cache).cachePath
+//@   assumed A-int: builds the download/<path>/@v/<version>.<suffix> name; pure
+//@   pure
+//@   ensures !isType(result1, *downloadDirPartialError)
+
+//@ func (*Cache).dirToLocation
+//@   assumed A-int: wraps a directory name; pure
+//@   pure
+
+// errors produced by other packages are never of the (unexported) partial-error type
+//@ func foreignErr
+//@   assumed A-ext: an error value constructed outside this package is not a *downloadDirPartialError
+//@   ensures result != nil && !isType(result, *downloadDirPartialError)
+//@ func foreignStrErr
+//@   assumed A-ext: an error value constructed outside this package is not a *downloadDirPartialError
+//@   ensures !isType(result1, *downloadDirPartialError)
+
+// the cache paths of a module version are functions of the version alone
+//@ func (module.Version).IsCanonical
+//@   assumed A-int: pure predicate on the version value
+//@   pure
+//@ func (module.Version).BasePath
+//@   assumed A-int: pure
+//@   pure
+//@ func (module.Version).Version
+//@   assumed A-int: pure
+//@   pure
+//@ func module.EscapePath
+//@   assumed A-int: pure string escaping
+//@   pure
+//@   ensures !isType(result1, *downloadDirPartialError)
+//@ func module.EscapeVersion
+//@   assumed A-int: pure string escaping
+//@   pure
+//@   ensures !isType(result1, *downloadDirPartialError)
+//@ spec func badName(m module.Version) bool { !m.IsCanonical() || module.EscapePath(m.BasePath()).result1 != nil || module.EscapeVersion(m.Version()).result1 != nil }
+
+// (P) C16: "a directory is never reported as available while incomplete":
+// err == nil means the directory exists and carries no .partial marker, which
+// under the crash invariant means it is complete.
+//@ func (*Cache).downloadDir
+//@   strings abstract
+//@   may_panic
+//@   callsite os.Stat#0 contract statDir
+//@   callsite os.Stat#1 contract statPartial
+//@   callsite (fs.FileInfo).IsDir#0 contract extractPathIsDir
+//@   callsite fmt.Errorf#0 contract foreignErr
+//@   requires CI()
+//@   ensures [available] result1 == nil ==> dirState == 2 && !partial
+//@   ensures [partialerr] isType(result1, *downloadDirPartialError) ==> partial && dirState != 0
+//@   ensures [absent] dirState == 0 ==> result1 != nil && !isType(result1, *downloadDirPartialError)
+//@   ensures [badname] badName(m) ==> result0 == "" && result1 != nil
+//@   ensures [present] result1 != nil && !isType(result1, *downloadDirPartialError) && !badName(m) && c.cachePath(m, "partial").result1 == nil ==> dirState == 0
+//@   assigns heap
+
+// ---- effects of Fetch (each: requires = what must hold so that the effect's
+// intermediate states keep CI; ensures = states after success / failure) ----
+
+//@ func lockEffect
+//@   assumed A-ext effect: lockedfile.MutexAt(path).Lock() — exclusive across processes while held
+//@   requires !held
+//@   ensures result1 == nil ==> held
+//@   ensures result1 != nil ==> !held
+//@   assigns held
+
+//@ func unlockEffect
+//@   assumed A-ext effect: releases the version lock
+//@   requires held
+//@   ensures !held
+//@   assigns held
+
+// RemoveAll of a stale temporary directory (another name): no effect on the tracked state
+//@ func removeTmpEffect
+//@   assumed A-ext effect: removes <dir>.tmp-* left-overs; needs the lock because their writers must be gone
+//@   requires held
+
+// RemoveAll(dir): passes through "incomplete", so the marker must exist (or there is nothing to remove)
+//@ func removeDirEffect
+//@   assumed A-ext effect: robustio.RemoveAll on the extraction directory
+//@   requires held && (partial || dirState == 0)
+//@   ensures result == nil ==> dirState == 0
+//@   ensures result != nil ==> (old(dirState) == 0 ==> dirState == 0) && 0 <= dirState && dirState <= 1
+//@   assigns dirState
+
+//@ func writePartialEffect
+//@   assumed A-ext effect: creates the .partial marker
+//@   requires held
+//@   ensures result == nil ==> partial
+//@   ensures result != nil ==> (old(partial) ==> partial)
+//@   assigns partial
+
+// Unzip(dir): creates dir and fills it file by file: incomplete until it returns nil
+//@ func unzipEffect
+//@   assumed A-ext effect: modzip.Unzip into the extraction directory (its own contract is verified under C15)
+//@   requires held && partial && dirState == 0
+//@   ensures result == nil ==> dirState == 2
+//@   ensures result != nil ==> dirState == 0 || dirState == 1
+//@   assigns dirState
+
+// os.Remove(partialPath): only when the directory is absent or complete
+//@ func removePartialEffect
+//@   assumed A-ext effect: removes the .partial marker
+//@   requires held && dirState != 1
+//@   ensures result == nil ==> !partial
+//@   ensures result != nil ==> partial == old(partial)
+//@   assigns partial
+
+//@ func (*Cache).downloadZip
+//@   assumed A-int: fetches the zip into the download cache (temp file + rename, see downloadZip1); does not touch the extraction directory or its marker
+
+//@ func makeDirsReadOnly
+//@   assumed A-int: chmod only
+
+// (P) C16: every crash point of Fetch leaves the cache in a state satisfying CI
+// (so that downloadDir never reports an incomplete directory as available), and a
+// successful Fetch leaves a complete directory without marker.
+//@ func (*Cache).Fetch
+//@   strings abstract
+//@   may_panic
+//@   callsite (*modcache.Cache).lockVersion#0 contract lockEffect
+//@   callsite dynamic#0 contract unlockEffect
+//@   callsite modcache.RemoveAll#0 contract removeTmpEffect
+//@   callsite modcache.RemoveAll#1 contract removeDirEffect
+//@   callsite modcache.RemoveAll#2 contract removeDirEffect
+//@   callsite robustio.WriteFile#0 contract writePartialEffect
+//@   callsite modzip.Unzip#0 contract unzipEffect
+//@   callsite os.Remove#0 contract removePartialEffect
+//@   callsite os.Remove#1 contract removePartialEffect
+//@   loop 0 invariant CI() && held && -1 <= rangeindex
+//@   requires CI() && !held
+//@   always CI()
+//@   ensures [complete] result1 == nil ==> dirState == 2 && !partial
+//@   ensures [unlocked] !held
+//@   assigns heap
